@@ -113,6 +113,14 @@ def cases(tier, seed, shard, nshards):
     if shard == 0:
         yield {"kind": "fresh-interpreter"}
         yield {"kind": "namespace"}
+        for flav in ("async_class", "async_gen", "async_class_bare"):
+            for reborrow in (False, True):
+                for via in ("handle", "parent", "scope"):
+                    for susp in (1, 2):
+                        for close_at in (1, 2, 3):
+                            yield {"kind": "pending-read-close",
+                                   "c07": {"kind": "conc_close", "flav": flav, "reborrow": reborrow, "close_at": close_at,
+                                           "susp": susp, "via": via}}
     sizes = [5000, 20000] if tier == "quick" else [5000, 20000, 70000, 150000]
     k = 0
     for n in sizes:
@@ -872,8 +880,24 @@ def run_large_sync(case, stats):
     return {"violations": viols, "evals": 1, "sigs": [("large", tool, n)]}
 
 
+def run_pending_read_close(case, stats):
+    """Two tasks share a borrowed / scoped iterator; one closes the handle (or leaves the scope) while the other's
+    read is suspended inside the source.  Whatever the library does about it, it may only ever suspend on the
+    source's own awaitables (scenario and execution of C07, judged here on foreign suspensions only)."""
+    from . import C07
+    _ensure_monitor(stats)
+    res = C07.run_conc_close(case["c07"], Counter())
+    viols = [{"key": "close-during-pending-read/foreign-suspension", "msg": v["msg"]}
+             for v in res["violations"] if v["key"].endswith("foreign-suspension")]
+    stats["closes_during_a_pending_read"] += 1
+    _drain_asyncio(viols, "close-during-pending-read")
+    return {"violations": viols, "evals": 1, "sigs": [("pending-read-close", str(case["c07"]))]}
+
+
 def run_case(case, stats: Counter):
     kind = case["kind"]
+    if kind == "pending-read-close":
+        return run_pending_read_close(case, stats)
     if kind == "fresh-interpreter":
         return run_fresh(stats)
     if kind == "namespace":
